@@ -4,3 +4,6 @@ import MtailVerif.Props.C06
 #print axioms MtailVerif.C06.refused_only_on_kind_conflict
 #print axioms MtailVerif.C06.line_effect_is_local
 #print axioms MtailVerif.C06.loader_skeletons
+#print axioms MtailVerif.C06.f_runtime_runtime_skeletons
+#print axioms MtailVerif.C06.f_metrics_store_skeletons
+#print axioms MtailVerif.C06.f_exporter_prometheus_skeletons
